@@ -166,6 +166,7 @@ func (s *stmt) Query(args []driver.Value) (driver.Rows, error) {
 }
 
 type rows struct {
+	scratch [][]byte
 	db *DB
 	i  int
 }
@@ -183,6 +184,17 @@ func (r *rows) Next(dest []driver.Value) error {
 		return io.EOF
 	}
 	copy(dest, r.db.Rows[r.i])
+	// like real drivers, text delivered as []byte lives in a buffer that is reused for the next row: it is only
+	// valid until the next call of Next (database/sql hands it to a Scanner unchanged)
+	if r.scratch == nil {
+		r.scratch = make([][]byte, len(dest))
+	}
+	for j, v := range dest {
+		if b, ok := v.([]byte); ok && j < len(r.scratch) {
+			r.scratch[j] = append(r.scratch[j][:0], b...)
+			dest[j] = r.scratch[j]
+		}
+	}
 	r.i++
 	return nil
 }
